@@ -3,13 +3,20 @@ import EmsModel.Core.Polygons
 /-
 Core/NpExpr.lean — a small deep-embedded expression language for the numpy array pipelines of
 `CFGrid1D._make_polygons`, `CFGrid2D._make_polygons`, `ArakawaC._make_polygons`,
-`CFGrid1DTopology._get_or_make_bounds` (derived-bounds branch) and `CFGrid1D.face_centres`.
+`CFGrid1DTopology._get_or_make_bounds` (derived-bounds branch), `CFGrid1D.face_centres`,
+`CFGrid2DTopology._get_or_make_bounds` (derived-bounds branch: `isnan`, `pad`, `& |`, boolean-mask assignment,
+`nanmean`, `any`), `masking.smear_mask` as `arakawa_c.c_mask_from_centres` calls it, and `masking.blur_mask`
+(`padAll`, and the `nditer` / `fromiter` idiom as the dedicated constructor `windowAny`).
 
 The terms themselves are NOT written by hand: `harness/pipelines.py` translates the source text of
 those functions (read from the working tree on every run) into `Gen/Pipelines.lean`.  This file only
 gives the language its meaning.
 
 Arrays are positional: a shape and the C-order (row-major) flattening of the values; `none` = NaN.
+Boolean arrays live in the same type: `False` is `0`, `True` is `1` (`boolVal`), and an element is read as a
+boolean by numpy's truthiness (`truthy`: everything but `0`).  The language has no dtypes: that `&`, `|` and a
+boolean-mask assignment are applied to boolean operands is checked by the translator, which emits them only
+for operands it knows to be boolean.
 Every operation is total; `none` as a result means numpy would raise (bad axis, shapes that do not
 agree, not broadcastable, reshape size mismatch) or that the construct is outside the modelled
 fragment (`unsupported`).  Index arithmetic is `Ems.ravel / unravel / size` of Core/Shape.lean.
@@ -86,6 +93,21 @@ inductive SliceTerm where
   | range (a b : Bound)
 deriving Repr, DecidableEq
 
+/-- a non-negative integer expression over the integer parameters of the modelled function (`size`, `size * 2 + 1`) -/
+inductive ScalarTerm where
+  | lit (n : Nat)
+  | sym (name : String)
+  | add (a b : ScalarTerm)
+  | mul (a b : ScalarTerm)
+deriving Repr, DecidableEq
+
+/-- value of an integer expression; `none` = unknown parameter -/
+def ScalarTerm.val (sizes : List (String × Nat)) : ScalarTerm → Option Nat
+  | .lit n => some n
+  | .sym name => List.lookup name sizes
+  | .add a b => (a.val sizes).bind fun x => (b.val sizes).map fun y => x + y
+  | .mul a b => (a.val sizes).bind fun x => (b.val sizes).map fun y => x * y
+
 /-- the numpy expressions of the modelled functions -/
 inductive NpExpr where
   /-- an input array: `self.topology.longitude_bounds.values`, `coordinate.values`, … -/
@@ -109,6 +131,27 @@ inductive NpExpr where
   | sub (a b : NpExpr)
   /-- `a / c` for a numeric literal `c` -/
   | divConst (a : NpExpr) (c : Rat)
+  /-- `numpy.pad(x, widths, constant_values=fill)`: `widths` has one `(before, after)` pair per axis -/
+  | pad (x : NpExpr) (widths : List (Nat × Nat)) (fill : Option Rat)
+  /-- `numpy.isnan(x)`: a boolean array -/
+  | isnan (x : NpExpr)
+  /-- `a & b`, `a | b` for boolean arrays of one shape -/
+  | band (a b : NpExpr)
+  | bor (a b : NpExpr)
+  /-- the value of `x` after `x[mask] = value`: `mask` is a boolean array whose shape is a prefix of the shape
+  of `x` (the trailing axes are assigned as a whole), `value` a scalar (`none` = NaN) -/
+  | whereSet (x mask : NpExpr) (value : Option Rat)
+  /-- `numpy.nanmean(x, axis=axis)`: mean of the values present along the axis, NaN where there is none -/
+  | nanmeanAxis (x : NpExpr) (axis : Axis)
+  /-- `x.any(axis=axis)` -/
+  | anyAxis (x : NpExpr) (axis : Axis)
+  /-- `numpy.pad(x, width, constant_values=fill)` for one integer `width`: that many elements before and after
+  every axis -/
+  | padAll (x : NpExpr) (width : ScalarTerm) (fill : Option Rat)
+  /-- the `nditer` / `fromiter` idiom of `masking.blur_mask`, for boolean `x` and `padded` of one rank:
+  `numpy.fromiter((x[index] or numpy.any(padded[tuple(slice(i, i + extent) for i in index)]) for index in I),
+  count=x.size, dtype=x.dtype).reshape(x.shape)` where `I` are the multi-indexes of `x` in C order -/
+  | windowAny (x padded : NpExpr) (extent : ScalarTerm)
   /-- something the translator could not render: carries the Python text, evaluates to `none` -/
   | unsupported (python : String)
 deriving Repr
@@ -192,6 +235,53 @@ def plainDims (env : NpEnv) (dims : List DimTerm) : Option (List Nat) :=
   | none => none
   | some ds => allSomeL ds
 
+/-- shape of `numpy.pad(x, widths)` -/
+def padShape : List (Nat × Nat) → List Nat → List Nat
+  | w :: ws, d :: s => (w.1 + d + w.2) :: padShape ws s
+  | _, _ => []
+
+/-- does element `idx` of a padded array come from the original array? -/
+def padIn : List (Nat × Nat) → List Nat → List Nat → Bool
+  | w :: ws, d :: s, i :: idx => decide (w.1 ≤ i) && (decide (i < w.1 + d) && padIn ws s idx)
+  | _, _, _ => true
+
+/-- source index of element `idx` of a padded array (where `padIn` holds) -/
+def padSrc : List (Nat × Nat) → List Nat → List Nat
+  | w :: ws, i :: idx => (i - w.1) :: padSrc ws idx
+  | _, _ => []
+
+/-- `False` is `0`, `True` is `1` -/
+def boolVal (b : Bool) : Option Rat := some (if b then 1 else 0)
+
+/-- numpy truthiness of an element: everything but `0` (NaN included) -/
+def truthy : Option Rat → Bool
+  | some r => r != 0
+  | none => true
+
+/-- `numpy.isnan` of an element -/
+def isnanV (v : Option Rat) : Option Rat := boolVal v.isNone
+
+def bandV (a b : Option Rat) : Option Rat := boolVal (truthy a && truthy b)
+
+def borV (a b : Option Rat) : Option Rat := boolVal (truthy a || truthy b)
+
+/-- `any` of the values along an axis -/
+def anyV (l : List (Option Rat)) : Option Rat := boolVal (l.any truthy)
+
+/-- the offsets `(d_0, …, d_{r-1})`, every `d_k < n`, of a window of extent `n` along each of `r` axes -/
+def windowOffsets : Nat → Nat → List (List Nat)
+  | 0, _ => [[]]
+  | r + 1, n => (List.range n).flatMap fun d => (windowOffsets r n).map (d :: ·)
+
+/-- `idx + off`, component by component -/
+def addIdx (idx off : List Nat) : List Nat := List.zipWith (· + ·) idx off
+
+/-- `numpy.any(p[idx_0 : idx_0 + n, idx_1 : idx_1 + n, …])` for an array of shape `shape` read by `read`:
+basic slices clip at the end of the array, so only positions inside it count -/
+def anyWindowAt (shape : List Nat) (read : List Nat → Option Rat) (idx : List Nat) (n : Nat) : Bool :=
+  (windowOffsets idx.length n).any fun off =>
+    (ravel shape (addIdx idx off)).isSome && truthy (read (addIdx idx off))
+
 /-! ### the operations on arrays -/
 
 /-- `numpy.stack(xs, axis)`: all of one shape; element `idx` is element `idx` without position `k`
@@ -268,6 +358,46 @@ def zipArr (f : Rat → Rat → Rat) (a b : NpArr) : Option NpArr :=
 def divArr (a : NpArr) (c : Rat) : Option NpArr :=
   if c = 0 then none else some { shape := a.shape, data := a.data.map fun v => v.map (· / c) }
 
+/-- `numpy.pad(x, widths, constant_values=fill)` with one `(before, after)` pair per axis -/
+def padArr (x : NpArr) (ws : List (Nat × Nat)) (fill : Option Rat) : Option NpArr :=
+  if ws.length = x.shape.length then
+    some (NpArr.tabulate (padShape ws x.shape) fun idx =>
+      if padIn ws x.shape idx then x.get (padSrc ws idx) else fill)
+  else none
+
+/-- an elementwise function (`numpy.isnan`) -/
+def mapArr (f : Option Rat → Option Rat) (x : NpArr) : NpArr :=
+  NpArr.tabulate x.shape fun idx => f (x.get idx)
+
+/-- an elementwise binary function on arrays of one shape (`&`, `|`) -/
+def zipWithArr (f : Option Rat → Option Rat → Option Rat) (a b : NpArr) : Option NpArr :=
+  if a.shape = b.shape then some (NpArr.tabulate a.shape fun idx => f (a.get idx) (b.get idx)) else none
+
+/-- `x[m] = v` for a boolean array `m` of shape `x.shape[:m.ndim]` (numpy: IndexError otherwise):
+every element whose leading indexes select a true entry of `m` becomes `v` -/
+def whereSetArr (x m : NpArr) (v : Option Rat) : Option NpArr :=
+  if m.shape = x.shape.take m.shape.length then
+    some (NpArr.tabulate x.shape fun idx => if truthy (m.get (idx.take m.shape.length)) then v else x.get idx)
+  else none
+
+/-- a reduction along an axis: element `idx` of the result is `f` of the values `x[idx with t inserted at the axis]`,
+`t = 0 … length of the axis - 1` -/
+def reduceArr (f : List (Option Rat) → Option Rat) (x : NpArr) (ax : Axis) : Option NpArr :=
+  (ax.norm x.shape.length).map fun k =>
+    NpArr.tabulate (removeAt k x.shape) fun idx =>
+      f ((List.range (x.shape.getD k 0)).map fun t => x.get (insertAt k t idx))
+
+/-- the value of `NpExpr.windowAny`: element `idx` is `x[idx] or any(padded[window of extent n at idx])` -/
+def windowAnyArr (a p : NpArr) (n : Nat) : Option NpArr :=
+  if p.shape.length = a.shape.length then
+    -- `pa[k]?` is `p.data[k]?`: the padded array is read many times, through an `Array` for constant-time access
+    let pa := p.data.toArray
+    some (NpArr.tabulate a.shape fun idx => boolVal (truthy (a.get idx) ||
+      anyWindowAt p.shape (fun i => match ravel p.shape i with
+        | some k => (pa[k]?).join
+        | none => none) idx n))
+  else none
+
 /-! ### evaluation -/
 
 mutual
@@ -286,6 +416,17 @@ def eval (env : NpEnv) : NpExpr → Option NpArr
   | .add a b => (eval env a).bind fun x => (eval env b).bind fun y => zipArr (· + ·) x y
   | .sub a b => (eval env a).bind fun x => (eval env b).bind fun y => zipArr (· - ·) x y
   | .divConst a c => (eval env a).bind fun x => divArr x c
+  | .pad x ws fill => (eval env x).bind fun a => padArr a ws fill
+  | .isnan x => (eval env x).map fun a => mapArr isnanV a
+  | .band a b => (eval env a).bind fun x => (eval env b).bind fun y => zipWithArr bandV x y
+  | .bor a b => (eval env a).bind fun x => (eval env b).bind fun y => zipWithArr borV x y
+  | .whereSet x m v => (eval env x).bind fun a => (eval env m).bind fun b => whereSetArr a b v
+  | .nanmeanAxis x ax => (eval env x).bind fun a => reduceArr nanmean a ax
+  | .anyAxis x ax => (eval env x).bind fun a => reduceArr anyV a ax
+  | .padAll x w fill => (eval env x).bind fun a => (w.val env.sizes).bind fun n =>
+      padArr a (List.replicate a.shape.length (n, n)) fill
+  | .windowAny x p e => (eval env x).bind fun a => (eval env p).bind fun b => (e.val env.sizes).bind fun n =>
+      windowAnyArr a b n
   | .unsupported _ => none
 def evalList (env : NpEnv) : List NpExpr → Option (List NpArr)
   | [] => some []
@@ -335,6 +476,16 @@ def gridArr (g : List (List (Option Rat))) (nx : Nat) : NpArr :=
 def grid3Arr (g : List (List (List (Option Rat)))) (nx m : Nat) : NpArr :=
   { shape := [g.length, nx, m], data := (g.map List.flatten).flatten }
 
+/-- the four stored values of a cell: its corners, or four NaNs -/
+def cornerCell : Option (List Rat) → List (Option Rat)
+  | some l => l.map some
+  | none => [none, none, none, none]
+
+/-- the `(ny, nx, 4)` bounds array of one coordinate from per-cell corner lists (`derived2d`): a cell without
+corners holds four NaNs -/
+def cornersArr (g : List (List (Option (List Rat)))) (nx : Nat) : NpArr :=
+  grid3Arr (g.map fun row => row.map cornerCell) nx 4
+
 /-! ### environments of the modelled functions -/
 
 /-- `CFGrid1D._make_polygons`: the two `(n, 2)` bounds arrays and `y_size, x_size = self.topology.shape` -/
@@ -355,6 +506,10 @@ def arakawaEnv (xg yg : List (List (Option Rat))) (nx : Nat) : NpEnv :=
 /-- `CFGrid1DTopology._get_or_make_bounds`: the coordinate values -/
 def midEnv (vals : List (Option Rat)) : NpEnv :=
   { arrs := [("values", vecArr vals)], sizes := [] }
+
+/-- the derived-bounds branch of `CFGrid2DTopology._get_or_make_bounds`: the `(ny, nx)` coordinate values -/
+def derived2dEnv (c : List (List (Option Rat))) (nx : Nat) : NpEnv :=
+  { arrs := [("values", gridArr c nx)], sizes := [] }
 
 /-- `CFGrid1D.face_centres`: the two coordinate vectors and the topology shape -/
 def centresEnv (lon lat : List (Option Rat)) : NpEnv :=
